@@ -80,7 +80,10 @@ def _shape(s, tu):
         for m in x.geoms:
             out += parts(m)
         return out
-    return {"kind": str(s.geom_type), "parts": parts(s)}
+    members = list(s.geoms) if hasattr(s, "geoms") else []
+    return {"kind": str(s.geom_type), "parts": parts(s),
+            # the exact type: class name of the converted object, and geom_type / class name of each member of a collection
+            "tname": type(s).__name__, "pkinds": [[str(m.geom_type), type(m).__name__] for m in members]}
 
 
 def _point2(p, tu):
@@ -122,9 +125,12 @@ def _bounds(geom, tu):
 def _run(g, tu):
     geom = build(g, tu)
     raised = []
+    sh = _try(raised, "geometry_to_shapely", lambda: _shape(geometry_to_shapely(geom), tu),
+              {"kind": "", "parts": [], "tname": "", "pkinds": []})
     return {
         "bounds": _try(raised, "compute_bounds", lambda: _bounds(geom, tu), [OFF] * 4),
-        "shape": _try(raised, "geometry_to_shapely", lambda: _shape(geometry_to_shapely(geom), tu), {"kind": "", "parts": []}),
+        "shape": {"kind": sh["kind"], "parts": sh["parts"]},
+        "stype": {"tname": sh["tname"], "pkinds": sh["pkinds"]},
         "feat": _try(raised, "compute_geometric_features", lambda: _feats(geom, tu), []),
         "anchors": [_try(raised, "get_geometry_point/" + p, lambda: _point2(get_geometry_point(geom, position=p), tu), [OFF, OFF])
                     for p in POSITIONS],
@@ -268,6 +274,8 @@ def random_cases(rng, tier):
         if rng.random() < 0.35:
             c = _late(k, c, rng.choice([5000000, 5000001, 40000000, 40000001, 2 ** 26, 2 ** 26 + 12345]))
         yield {"gs": [{"type": k, "coordinates": c}], "dec": []}
+        if k == "LineString" and rng.random() < 0.5:     # the same line closed: its last vertex is its first
+            yield {"gs": [{"type": k, "coordinates": [list(p) for p in c] + [list(c[0])]}], "dec": []}
         if rng.random() < 0.3 and k not in ("Polygon", "MultiPolygon"):
             # the same ticks read as decimals: time = tick / 100 s or tick / 1000 s, frequency = tick / 100 Hz (small values:
             # the midpoint tolerance of the specification is absolute)
@@ -284,6 +292,10 @@ def random_cases(rng, tier):
         pts = pts[:m]
         if pts[0][0] >= pts[-1][0]:
             pts[-1][0] = pts[0][0] + 1
+        if rng.random() < 0.3:                           # a line that returns to where it began (first time = last time)
+            pts = pts + [list(pts[0])]
+            yield {"gs": [{"type": "LineString", "coordinates": pts}], "dec": []}
+            continue
         k = rng.choice(["LineString", "MultiLineString", "MultiLineString"])
         c = pts if k == "LineString" else rng.choice([[pts], [[[0, 0], [1, 5]], pts], [pts, [[3, 1], [9, 1], [12, 1]]]])
         yield {"gs": [{"type": k, "coordinates": c}], "dec": []}
